@@ -1,7 +1,82 @@
 import Mixin.Model.PeerMsg
+import Mixin.Proofs.PeerMsg
+/-!
+# C08 — peer message parsing is total and faithful
+
+Theorems about `Mixin.Model.PeerMsg`, the model of `p2p/handle.go`
+(`parseNetworkMessage`, `parseTransactionsPayload`, `unmarshalSyncPoints`, `build*Message`).
+The snapshot / transaction decoders and `CheckKey` are an arbitrary `Oracle`.
+-/
 namespace Mixin.C08
 open Mixin.PeerMsg
+open Mixin.Proto (Bytes)
 
-theorem stub : True := trivial
+theorem dispatch_total (O : Oracle) (msg : Msg) (t : UInt8) (data : Bytes) (hl : 1 ≤ data.length) :
+    dispatch O msg t data ≠ .panic := by
+  unfold dispatch
+  by_cases h0 : t = tPreCommitments
+  · rw [if_pos h0]; exact parsePreCommitments_total _ _ _
+  rw [if_neg h0]
+  by_cases h1 : t = tGraph
+  · rw [if_pos h1]; exact parseGraph_total _ _
+  rw [if_neg h1]
+  by_cases h2 : t = tPing
+  · rw [if_pos h2]; unfold parsePing; split <;> simp
+  rw [if_neg h2]
+  by_cases h3 : t = tAuthentication
+  · rw [if_pos h3]; exact parseAuthentication_total _ _
+  rw [if_neg h3]
+  by_cases h4 : t = tSnapshotConfirm
+  · rw [if_pos h4]; exact parseSnapshotConfirm_total _ _
+  rw [if_neg h4]
+  by_cases h5 : t = tTransaction
+  · rw [if_pos h5]; exact parseTransaction_total _ _ _ hl
+  rw [if_neg h5]
+  by_cases h6 : t = tTransactionBundle ∨ t = tFinalizedTransactionBundle
+  · rw [if_pos h6]; exact parseBundle_total _ _ _ hl
+  rw [if_neg h6]
+  by_cases h7 : t = tTransactionRequest
+  · rw [if_pos h7]; exact parseTransactionRequest_total _ _
+  rw [if_neg h7]
+  by_cases h8 : t = tAnnouncement
+  · rw [if_pos h8]; exact parseAnnouncement_total _ _ _ hl
+  rw [if_neg h8]
+  by_cases h9 : t = tCommitment
+  · rw [if_pos h9]; exact parseCommitment_total _ _ _ hl
+  rw [if_neg h9]
+  by_cases h10 : t = tFullChallenge
+  · rw [if_pos h10]; exact parseFullChallenge_total _ _ _ hl
+  rw [if_neg h10]
+  by_cases h11 : t = tTransactionChallenge
+  · rw [if_pos h11]; exact parseTransactionChallenge_total _ _ _ hl
+  rw [if_neg h11]
+  by_cases h12 : t = tResponse
+  · rw [if_pos h12]; exact parseResponse_total _ _ hl
+  rw [if_neg h12]
+  by_cases h13 : t = tFinalization
+  · rw [if_pos h13]; exact parseFinalization_total _ _ _ hl
+  rw [if_neg h13]
+  by_cases h14 : t = tRelay
+  · rw [if_pos h14]; unfold parseRelay; split <;> simp
+  rw [if_neg h14]
+  by_cases h15 : t = tConsumers
+  · rw [if_pos h15]; exact parseConsumers_total _ _ hl
+  rw [if_neg h15]
+  simp
+
+/-- **Totality.** For every oracle, version and byte string the parser returns a message or an
+    error: no slice expression of `parseNetworkMessage` can go out of range. -/
+theorem parse_total (O : Oracle) (v : UInt8) (b : Bytes) : parse O v b ≠ .panic := by
+  unfold parse
+  split
+  · simp
+  · exact dispatch_total _ _ _ _ (by simp)
+
+/-- the sub-parsers are total as well (they are reachable on their own from relayed data) -/
+theorem payload_total (O : Oracle) (b : Bytes) : parseTransactionsPayload O b ≠ .panic :=
+  parseTransactionsPayload_total O b
+
+theorem points_total (b : Bytes) : unmarshalSyncPoints b ≠ .panic :=
+  unmarshalSyncPoints_total b
 
 end Mixin.C08
